@@ -179,8 +179,17 @@ impl<L: Localize> OpeningHours<L> {
                             .unwrap_or(false)
                     {
                         (prev_match, prev_eval)
-                    } else {
+                    } else if prev_match {
                         (curr_match, curr_eval)
+                    } else {
+                        // No rule applied today, but earlier rules may spill from yesterday
+                        (
+                            curr_match,
+                            match (curr_eval, prev_eval) {
+                                (Some(curr), Some(prev)) => Some(curr.addition(prev)),
+                                (curr, prev) => curr.or(prev),
+                            },
+                        )
                     }
                 }
             };
